@@ -84,19 +84,19 @@ Theorem C06_class_type_tokens : forall c, c < 65536 -> class_ok c = true /\ rtyp
 Proof. intros c H. split; [apply class_table | apply rtype_table]; exact H. Qed.
 Print Assumptions C06_class_type_tokens.
 
-Theorem C06_scan_show_record : forall k schema r, wf_record schema r -> ~ owner_leading_dollar (r_owner r) ->
+Theorem C06_scan_show_record : forall k schema r, wf_record schema r ->
   exists t, show_record k r = Ok t /\
     read_record schema t = Ok (r_owner r, r_ttl r, r_class r, r_type r, map fst (r_fields r)).
 Proof. exact scan_show_record. Qed.
 Print Assumptions C06_scan_show_record.
 
-Theorem C06_scan_show_record_refuted : exists k schema r, wf_record schema r /\
-  exists t, show_record k r = Ok t /\ read_record schema t = Err E_entry.
-Proof. exact scan_show_record_refuted. Qed.
-Print Assumptions C06_scan_show_record_refuted.
+Theorem C06_scan_show_record_txt_no_strings_refuted : exists k r,
+  exists t, show_record k r = Ok t /\ read_record [FCharstrs] t = Err E_tokens.
+Proof. exact scan_show_record_txt_no_strings_refuted. Qed.
+Print Assumptions C06_scan_show_record_txt_no_strings_refuted.
 
 Theorem C06_generic_form_roundtrip : forall k owner ttl cl rt data,
-  wf_name owner -> ~ owner_leading_dollar owner -> ttl <= 4294967295 -> cl < 65536 -> rt < 65536 ->
+  wf_name owner -> ttl <= 4294967295 -> cl < 65536 -> rt < 65536 ->
   wf_bytes data -> len data <= 65535 ->
   exists t, render k (generic_ops owner ttl cl rt data) = Ok t /\
     read_generic_record (t ++ [ch_lf]) = Ok (owner, ttl, cl, rt, data).
